@@ -470,3 +470,38 @@ func init() {
 		Outside: []string{"dependencies declared in nested tuple components"},
 	})
 }
+
+func init() {
+	register(&PropSpec{
+		ID:   "C14",
+		Pkgs: []string{"./shovel"},
+		Runs: func(tier string) []HRun {
+			rs := []HRun{
+				{Pkg: "./shovel", Fn: "ZZ_C14_Fields", Params: []int{-1, -1, -1, 0}, MaxPaths: 100000, Label: "all-pairs-no-event"},
+				{Pkg: "./shovel", Fn: "ZZ_C14_Fields", Params: []int{-1, -1, -1, 1}, MaxPaths: 100000, Label: "all-pairs-with-event"},
+			}
+			n := 28
+			// triples: every field with two fixed partners from other membership classes
+			partners := [][2]int{{10, 12}, {13, 20}, {0, 18}, {7, 11}}
+			if tier == "thorough" {
+				partners = append(partners, [2]int{2, 14}, [2]int{5, 22}, [2]int{15, 17}, [2]int{9, 24}, [2]int{3, 13})
+			}
+			for f := 0; f < n; f++ {
+				for _, p := range partners {
+					for ev := 0; ev <= 1; ev++ {
+						rs = append(rs, HRun{Pkg: "./shovel", Fn: "ZZ_C14_Fields", Params: []int{f, p[0], p[1], ev}})
+					}
+				}
+			}
+			return rs
+		},
+		Assumptions: []string{
+			"the node is honest and supplies, per JSON-RPC method, exactly the members the Ethereum JSON-RPC specification lists for it (harness/jrpc2/node.go is that table and the independent oracle); every supplied value is a non-zero solver variable; members a method does not return are left at their zero default",
+			"the real pipeline is executed: config.Integration.AddRequiredFields -> dig.New -> Integration.Filter/glf.New -> jrpc2.Client.Get and its fetchers (cut at Client.do) -> dig.Integration.Insert -> COPY rows captured from pgx.CopyFromRows",
+			"domain: log_idx/log_addr only for integrations that declare an event; trace_action_idx only together with another trace field; an integration indexes either logs or traces",
+			"field names are case-split (all 28 x 28 pairs inside two runs, triples by membership class); values are solver-quantified",
+		},
+		Bounds:  map[string]string{"quick": "all pairs of the 28 field names with and without an event; 28 x 4 x 2 triples", "thorough": "28 x 9 x 2 triples"},
+		Outside: []string{"blocks with several transactions/logs (attachment of several items is C07)", "field sets larger than three"},
+	})
+}
